@@ -79,20 +79,36 @@ def stepTok (st : List Expr) (tok : String) : Option (List Expr) :=
 def parseProg (toks : List String) : Option (List Expr) :=
   toks.foldlM stepTok []
 
-def showChunk (c : Chunk) : String := toString c.col ++ ":" ++ showCps c.text
+/-- run-length encoding of the reply tokens (`tok*count` for a run of 4 or more): replies with long
+paddings stay short; the harness encodes the real objects the same way -/
+def rle (toks : List String) : String :=
+  let flush (acc : List String) (cur : Option (String × Nat)) : List String :=
+    match cur with
+    | none => acc
+    | some (t, n) => if n ≥ 4 then (t ++ "*" ++ toString n) :: acc else List.replicate n t ++ acc
+  let (acc, cur) := toks.foldl (fun (st : List String × Option (String × Nat)) x =>
+    match st.2 with
+    | some (t, n) => if x = t then (st.1, some (t, n + 1)) else (flush st.1 st.2, some (x, 1))
+    | none => (st.1, some (x, 1))) ([], none)
+  let out := (flush acc cur).reverse
+  if out.isEmpty then "-" else ",".intercalate out
+
+def showCpsR (cs : List Char) : String := rle (cs.map fun c => toString c.toNat)
+
+def showChunk (c : Chunk) : String := toString c.col ++ ":" ++ showCpsR c.text
 
 def showChunks (cs : List Chunk) : String :=
   if cs.isEmpty then "-" else "/".intercalate (cs.map showChunk)
 
 def showCells (cs : Cells) : String :=
-  if cs.isEmpty then "-" else ",".intercalate (cs.map fun x => toString x.1.toNat ++ "." ++ toString x.2)
+  rle (cs.map fun x => toString x.1.toNat ++ "." ++ toString x.2)
 
 mutual
 def showPart : Part → String
-  | .str s => "S " ++ showCps s
-  | .chunk c => "C " ++ showChunk c ++ " L " ++ toString c.text.length ++ " P " ++ showCps (c.cells.map (·.1))
+  | .str s => "S " ++ showCpsR s
+  | .chunk c => "C " ++ showChunk c ++ " L " ++ toString c.text.length ++ " P " ++ showCpsR (c.cells.map (·.1))
       ++ " X " ++ showCells c.cells
-  | .text t => "T " ++ toString t.scrlen ++ " " ++ showChunks t.chunks ++ " P " ++ showCps (t.cells.map (·.1))
+  | .text t => "T " ++ toString t.scrlen ++ " " ++ showChunks t.chunks ++ " P " ++ showCpsR (t.cells.map (·.1))
       ++ " X " ++ showCells t.cells
   | .list tp ps => (if tp then "TP(" else "LS(") ++ showParts ps ++ ")"
 def showParts : List Part → String
@@ -202,7 +218,7 @@ def handle (line : String) : String :=
     | none => "bad-op"
   | ["pyslice", s, i, j] =>
     match parseCps s, parseOptInt i, parseOptInt j with
-    | some cs, some x, some y => "S " ++ showCps (pySlice cs x y)
+    | some cs, some x, some y => "S " ++ showCpsR (pySlice cs x y)
     | _, _, _ => "bad-op"
   | ["pyidx", s, i] =>
     match parseCps s, parseInt i with
